@@ -359,7 +359,7 @@ func c13NLPWords(q string) (out []string) {
 
 func c13EngineCtxBoost(ctx *Ctx) {
 	r := vlib.NewRand(ctx.Seed, ctx.Shard, "ctxboost")
-	nDB := ctx.N(64, 640)
+	nDB := ctx.N(64, 1920)
 	nQ := 14
 	nB := 4
 	for d := 0; d < nDB; d++ {
@@ -1013,7 +1013,7 @@ func c13SameContext(a, b *pctx.Context, ignoreDir bool) bool {
 
 func c13EngineAnalyzer(ctx *Ctx) {
 	r := vlib.NewRand(ctx.Seed, ctx.Shard, "analyzer")
-	n := ctx.N(2048, 20480)
+	n := ctx.N(2048, 61440)
 	for i := 0; i < n; i++ {
 		ents, info := c13GenDir(r)
 		twin := r.Intn(4) == 0
